@@ -111,7 +111,7 @@ func Walk(ctx context.Context, node hclsyntax.Node, nodeSchema schema.Schema, w 
 
 		var blockBodySchema schema.Schema = nil
 		bSchema, ok := nodeSchema.(*schema.BlockSchema)
-		if ok && bSchema.Body != nil {
+		if ok && (bSchema.Body != nil || len(bSchema.DependentBody) > 0) {
 			mergedSchema, result := schemahelper.MergeBlockBodySchemas(nodeType.AsHCLBlock(), bSchema)
 			if result == schemahelper.LookupFailed || result == schemahelper.LookupPartiallySuccessful {
 				blockCtx = schemacontext.WithUnknownSchema(blockCtx)
